@@ -21,6 +21,7 @@ package hessian
 import (
 	"bytes"
 	"io"
+	"math"
 	"reflect"
 	"unsafe"
 )
@@ -123,8 +124,11 @@ func (e *Encoder) WriteData(data interface{}) (int, error) {
 		value := data.(int32)
 		return e.writeInt(value)
 	case reflect.Int: // as int
-		value := int32(data.(int))
-		return e.writeInt(value)
+		iv := data.(int)
+		if int(int32(iv)) != iv {
+			return 0, newCodecError("WriteData", "int value %d out of int32 range", iv)
+		}
+		return e.writeInt(int32(iv))
 	case reflect.Uint8: // as int
 		value := int32(data.(uint8))
 		return e.writeInt(value)
@@ -135,14 +139,20 @@ func (e *Encoder) WriteData(data interface{}) (int, error) {
 		value := data.(int64)
 		return e.writeLong(value)
 	case reflect.Uint: // as long
-		value := int64(data.(uint))
-		return e.writeLong(value)
+		uv := data.(uint)
+		if uint64(uv) > math.MaxInt64 {
+			return 0, newCodecError("WriteData", "uint value %d out of long range", uv)
+		}
+		return e.writeLong(int64(uv))
 	case reflect.Uint32: // as long
 		value := int64(data.(uint32))
 		return e.writeLong(value)
 	case reflect.Uint64: // as long
-		value := int64(data.(uint64))
-		return e.writeLong(value)
+		uv := data.(uint64)
+		if uv > math.MaxInt64 {
+			return 0, newCodecError("WriteData", "uint64 value %d out of long range", uv)
+		}
+		return e.writeLong(int64(uv))
 	case reflect.Float32:
 		value := data.(float32)
 		return e.writeDouble(float64(value))
